@@ -67,7 +67,14 @@ case "$ID" in
     if ! (cd "$REPO_DIR" && go build $COVER -o "$TMP/protoc-go-valid" .) >"$TMP/build_cli.log" 2>&1; then
       echo "INCONCLUSIVE property=$ID CLI does not build:"; tail -20 "$TMP/build_cli.log"; exit 3
     fi
-    CLI="$TMP/protoc-go-valid" ;;
+    CLI="$TMP/protoc-go-valid"
+    # the library route (file.ParseFile + file.WriteFile) as a helper of its own: if the file package's
+    # signatures changed it does not build, and the monitors use the CLI for those files instead
+    if (cd "$VERIF_DIR/harness" && go build $MODFLAG $COVER -o "$TMP/libinject" ./cmd/libinject) >"$TMP/build_lib.log" 2>&1; then
+      export VMON_LIBINJECT="$TMP/libinject"
+    else
+      export VMON_LIBINJECT=""
+    fi ;;
 esac
 
 mkdir -p "$OUT_DIR/evidence" "$TMP/run"
